@@ -280,7 +280,8 @@ func init() {
 			cfg.MaxStructs = 4
 			cfg.PLiteral = 10
 			p := pgen.Generate(c.Seed*523+int64(i), cfg)
-			if i%10 == 3 {
+			isSkel := i%10 == 3
+			if isSkel {
 				// every tenth program: the prefix-related-names skeleton
 				p = pgen.RefactorSkeleton(c.Seed*523+int64(i), cfg)
 			}
@@ -339,7 +340,7 @@ func init() {
 							prefixOfSibling = true
 						}
 					}
-					if prefixOfSibling || rng.Intn(2) == 0 {
+					if prefixOfSibling || isSkel || rng.Intn(2) == 0 {
 						add(c19Edit{Kind: "rename-output", Callable: cb.name, Param: o.Name, NewName: fmt.Sprintf("fresh_out_%d", rng.Intn(1000)), Fresh: true})
 					}
 					if len(cb.outs) > 1 && rng.Intn(3) == 0 {
